@@ -395,8 +395,9 @@ func (p *Parser) ShortExp(t *token.Token) (ast.ExpNode, *token.Token) {
 	}
 	if t.Type == token.SgHat {
 		var pow ast.ExpNode
+		opTok := t
 		pow, t = p.ShortExp(p.Scan())
-		exp = ast.NewBinOp(exp, ops.OpPow, t, pow)
+		exp = ast.NewBinOp(exp, ops.OpPow, opTok, pow)
 	}
 	return exp, t
 }
